@@ -79,3 +79,38 @@ func Harness_C09_excl_other_key() {
 		verifAssert(bDone, "long_running_key_does_not_delay_other_keys")
 	})
 }
+
+// C10 excl_start_then_call: while an execution for the key is running, a Start arrives (first registrant of
+// the next batch) and then an async Call; when the running work finishes, the two waiter goroutines race to
+// become the executor of the next batch. Every call must be answered, nothing may wedge, no state remains.
+func Harness_C10_excl_start_then_call() {
+	var e Exclusive
+	release := make(chan struct{})
+	execs := 0
+	verifAtomic(func() {
+		e.Start("k", func() (interface{}, error) { <-release; return vtok(1), nil })
+	})
+	var out <-chan *ExclusiveOutcome
+	go func() {
+		// issued once the first execution is under way (assumption: only such schedules are of interest)
+		verifYield()
+		verifAtomic(func() {
+			e.mutex.Lock()
+			it := e.work["k"]
+			started := it != nil && it.running && it.count == 0
+			e.mutex.Unlock()
+			verifAssume(started)
+			e.Start("k", func() (interface{}, error) { execs++; return vtok(2), nil })
+		})
+		// the Start's waiter must park (releasing the key's mutex) before the next call can register
+		out = e.CallAsync("k", func() (interface{}, error) { execs++; return vtok(3), nil })
+		close(release)
+		r := <-out
+		verifAssert(r != nil && r.Error == nil && (r.Result == vtok(2) || r.Result == vtok(3)), "coalesced_call_is_answered_by_the_next_execution")
+	}()
+	verifFinally(func() {
+		verifAssert(execs == 1, "one_execution_for_the_coalesced_batch")
+		verifAssert(len(e.work) == 0, "no_per_key_state_remains")
+		verifReach("quiescent")
+	})
+}
